@@ -152,8 +152,14 @@ class _Ctx:
             varying = [c for c in range(E.shape[1]) if not (sub[:, c] == sub[0, c]).all()]
             with np.errstate(invalid="ignore", over="ignore"):
                 s = sub[:, varying].sum(axis=1).astype(np.float32).astype(np.float64) if varying else np.zeros(len(rows))
+                ab = np.abs(sub[:, varying]).sum(axis=1) if varying else np.zeros(len(rows))
             self._cache[k] = (rows, varying, dict(zip(rows.tolist(), s.tolist())))
+            self._cache[("abs",) + k] = dict(zip(rows.tolist(), ab.tolist()))
         return self._cache[k]
+
+    def abs_sums(self, i):
+        self.group_view(i)
+        return self._cache[("abs", "gv", tuple(self.G()[i].tolist()))]
 
 
 def _order_unsafe(sj, si):
@@ -202,6 +208,31 @@ def _in_F2(cx):
     return any(_F2_row(cx, i) for i in range(cx.n))
 
 
+def _cancel_unsafe(sj, si, aj, ai, dv):
+    """The two row sums differ by no more than the rounding error that the accumulation (float64 accumulator, dv terms,
+    ANY association order: the core is compiled with fastmath=True) can make on terms of these magnitudes."""
+    if not (math.isfinite(sj) and math.isfinite(si) and math.isfinite(aj) and math.isfinite(ai)):
+        return True
+    return abs(sj - si) <= dv * 2.0 ** -52 * (aj + ai) or _order_unsafe(sj, si)
+
+
+def _cancel_row(cx, i, narrow=True):
+    # row i is dominated, its group has >= 3 varying optimisation columns, and for EVERY row j dominating it the
+    # difference of the two row sums is within the rounding error of the sums (large entries of opposite sign cancel)
+    dom = cx.dominators(i, narrow)
+    if not dom.any():
+        return False
+    rows, varying, s = cx.group_view(i)
+    if len(varying) < 3:
+        return False
+    ab = cx.abs_sums(i)
+    return all(_cancel_unsafe(s[j], s[i], ab[j], ab[i], len(varying)) for j in np.where(dom)[0].tolist())
+
+
+def _in_cancel(cx):
+    return any(_cancel_row(cx, i) for i in range(cx.n))
+
+
 def _in_F3(cx):
     # two rows of one diff group differ in a min/max column but are equal after rounding to float32
     if cx.dtype == "float32" or cx.n < 2:
@@ -235,13 +266,16 @@ def _in_empty_numpy(cx):
     return cx.entry == "numpy" and cx.n == 0
 
 
-CLASSES = {"F1": _in_F1, "F2": _in_F2, "F3": _in_F3, "C11-empty-numpy": _in_empty_numpy, "C11-neg-inplace": _in_neg}
+CLASSES = {"F1": _in_F1, "F2": _in_F2, "C11-sum-cancellation": _in_cancel, "F3": _in_F3, "C11-empty-numpy": _in_empty_numpy, "C11-neg-inplace": _in_neg}
 
 CLASS_TEXT = {
     "F1": "a diff group with exactly two varying optimisation columns in which an entry is +inf after sign normalisation / float32 rounding "
           "(2-D sweep sentinel best_c1 = 1e308: the first run is never marked when its smallest second coordinate is +inf)",
     "F2": "a dominated row in a group with >= 3 varying optimisation columns, all of whose dominators have a float32 row sum equal to its own "
           "(or a non-finite one): the sum-sorted scan visits the dominated row first and keeps it",
+    "C11-sum-cancellation": "a dominated row in a group with >= 3 varying optimisation columns whose row sum differs from the sum of every one of its "
+                            "dominators by no more than the rounding error of the accumulation (dv * 2^-52 * sum of magnitudes; entries of opposite "
+                            "sign around 1e30 cancel, the core is compiled with fastmath=True): the sum-sorted scan visits it first and keeps it",
     "F3": "non-float32 input in which two rows of a group differ in a min/max column but coincide after rounding to float32 "
           "(NUMPY_FLOAT_TYPE is float32; data are narrowed before comparison)",
     "C11-empty-numpy": "makepareto_numpy on a matrix with 0 rows (IndexError from n[0] = True)",
@@ -254,6 +288,9 @@ WITNESS = {
     "F1": [("fast", "float32", ["min", "min"], [[0, INF], [1, 5]]), ("numpy", "float64", ["min", "min"], [[0, INF], [1, 5]])],
     "F2": [("fast", "float32", ["min", "min", "min"], [[1e9, 2, 1], [1e9, 1, 1], [0, 5, 5]]),
            ("fast", "float32", ["min", "min", "min"], [[INF, 2, 1], [INF, 1, 1], [0, 5, 5]])],
+    "C11-sum-cancellation": [("fast", "float32", ["min", "max", "min", "min"],
+                              [[3e9, 3e9, 1000000128.0, 36.0], [1.0000000150474662e+30, 1.0000000150474662e+30, 3e9, 3.0],
+                               [1.0000000150474662e+30, 1.0000000150474662e+30, 0.0, 3.0]])],
     "F3": [("fast", "float64", ["min", "min"], [[1.0, 2.0], [1.0000000001, 1.0]]),
            ("fast", "int64", ["min", "min"], [[16777217, 2], [16777216, 3]])],
     "C11-empty-numpy": [("numpy", "float64", ["min", "min"], [])],
@@ -332,6 +369,8 @@ def _check(cx, known_ids):
                 used.append("F1")
             elif obs[i] and "F2" in inside and (not cx.distinct or cx.first_of_duplicates()[i]) and _F2_row(cx, i, narrow):
                 used.append("F2")                                        # a dominated row kept because of tied sums
+            elif obs[i] and "C11-sum-cancellation" in inside and (not cx.distinct or cx.first_of_duplicates()[i]) and _cancel_row(cx, i, narrow):
+                used.append("C11-sum-cancellation")                      # ... because the sums cancel to within rounding error
             else:
                 ok = False
                 break
